@@ -1,4 +1,5 @@
 import EpModel.Lemmas.DefragPool
+import EpModel.Lemmas.DefragOrig
 /-
   C11 — fragments reassemble to the original payload in any arrival order.
 
@@ -95,6 +96,134 @@ theorem complete_iff_covered (ip : Nat) (h : List Add) :
 theorem complete_payload (ip : Nat) (h : List Add) (bs : Bytes)
     (he : emit (factsRun [] h) = some bs) : (bufRun (Buf.new ip) h).data = bs.map some :=
   complete_data (buf_refines h _ _ (inv_new ip)) he
+
+/-- sections are non-empty when no accepted fragment was empty (an empty fragment is legal and
+    produces an empty section `(o,o)`, which is why the general invariant says `start ≤ end`). -/
+theorem sections_nonempty (h : List Add) (hne : ∀ a ∈ h, a.2.2 ≠ []) : ∀ (b : Buf),
+    (∀ r ∈ b.sections, Range.Valid r) → (∀ r ∈ b.sections, r.start < r.stop) →
+    ∀ r ∈ (bufRun b h).sections, r.start < r.stop := by
+  induction h with
+  | nil => intro b _ hb; exact hb
+  | cons a rest ih =>
+    intro b hv hb
+    obtain ⟨fo, mf, p⟩ := a
+    have hp : p ≠ [] := hne (fo, mf, p) (by simp)
+    have hrest : ∀ a ∈ rest, a.2.2 ≠ [] := fun a ha => hne a (by simp [ha])
+    simp only [bufRun]
+    cases ha : b.add fo mf p with
+    | error e => exact ih hrest b hv hb
+    | ok b' =>
+      have hb' : b' = b.addCore fo mf p := by
+        unfold Buf.add at ha; split at ha <;> cases ha; rfl
+      have hlen : 0 < p.length := List.length_pos_iff.2 hp
+      have hns : Range.Valid { start := fo * 8, stop := fo * 8 + p.length } := by
+        unfold Range.Valid; simp
+      have hsub := mergeLoop_sublist b.sections { start := fo * 8, stop := fo * 8 + p.length }
+      have hbd := mergeLoop_bounds b.sections _ hns hv
+      simp only [] at hbd
+      apply ih hrest b'
+      · intro r hr
+        rw [hb'] at hr
+        simp only [Buf.addCore, List.mem_append, List.mem_singleton] at hr
+        rcases hr with hr | rfl
+        · exact hv r (hsub.subset hr)
+        · exact mergeLoop_valid _ _ hns hv
+      · intro r hr
+        rw [hb'] at hr
+        simp only [Buf.addCore, List.mem_append, List.mem_singleton] at hr
+        rcases hr with hr | rfl
+        · exact hb r (hsub.subset hr)
+        · omega
+
+/-! ### pieces of one payload: original recovered, in any order, with duplicates -/
+
+/-- the fact of an `add` call -/
+def addFact (a : Add) : Frag := factOf a.1 a.2.1 a.2.2
+
+theorem consistent_all_accepted (P : Bytes) (hP : P.length ≤ 65535) (h : List Add) :
+    ∀ (fs : List Frag), (∀ g ∈ fs, Consistent P g) → (∀ a ∈ h, Consistent P (addFact a)) →
+    factsRun fs h = (h.map addFact).reverse ++ fs := by
+  induction h with
+  | nil => intro fs _ _; rfl
+  | cons a rest ih =>
+    intro fs hfs hc
+    obtain ⟨fo, mf, p⟩ := a
+    have ha : Consistent P (factOf fo mf p) := hc (fo, mf, p) (by simp)
+    simp only [factsRun, check_consistent hP hfs ha]
+    rw [ih (factOf fo mf p :: fs)
+      (by intro g hg; rcases List.mem_cons.1 hg with rfl | hg; exact ha; exact hfs g hg)
+      (fun a ha => hc a (by simp [ha]))]
+    simp [addFact]
+
+/-- **reassembles_original** (order / duplication invariance): for every payload `P` (≤ 65535
+    bytes) and every history of `add` calls whose fragments are pieces of `P` — any cut, any order,
+    any number of repetitions, overlapping or not — no call fails, the buffer is complete exactly
+    when a last fragment and every position of `P` have been delivered (a condition on the *set* of
+    delivered fragments only), and then its data is `P`, every cell written. -/
+theorem reassembles_original (ip : Nat) (P : Bytes) (hP : P.length ≤ 65535) (h : List Add)
+    (hc : ∀ a ∈ h, Consistent P (addFact a)) :
+    ((bufRun (Buf.new ip) h).isComplete = true ↔
+      (∃ a ∈ h, (addFact a).last = true) ∧
+      ∀ i, i < P.length → ∃ a ∈ h, (addFact a).off ≤ i ∧ i < (addFact a).stop) ∧
+    ((bufRun (Buf.new ip) h).isComplete = true → (bufRun (Buf.new ip) h).data = P.map some) := by
+  have hfs := consistent_all_accepted P hP h [] (by simp) hc
+  rw [List.append_nil] at hfs
+  have hmem : ∀ g, g ∈ factsRun [] h ↔ ∃ a ∈ h, addFact a = g := by
+    intro g; rw [hfs]; simp
+  have hall : ∀ g ∈ factsRun [] h, Consistent P g := by
+    intro g hg
+    obtain ⟨a, ha, rfl⟩ := (hmem g).1 hg
+    exact hc a ha
+  have hi := buf_refines h _ _ (inv_new ip)
+  have hiff : (bufRun (Buf.new ip) h).isComplete = true ↔ (emit (factsRun [] h)).isSome := by
+    rw [isComplete_iff hi, emit_isSome_iff]
+  constructor
+  · rw [hiff, emit_isSome_consistent hall]
+    simp only [covered]
+    constructor
+    · rintro ⟨⟨g, hg, hl⟩, hcov⟩
+      obtain ⟨a, ha, rfl⟩ := (hmem g).1 hg
+      refine ⟨⟨a, ha, hl⟩, fun i hi => ?_⟩
+      obtain ⟨f, hf, hh⟩ := hcov i hi
+      obtain ⟨a', ha', rfl⟩ := (hmem f).1 hf
+      exact ⟨a', ha', hh⟩
+    · rintro ⟨⟨a, ha, hl⟩, hcov⟩
+      refine ⟨⟨addFact a, (hmem _).2 ⟨a, ha, rfl⟩, hl⟩, fun i hi => ?_⟩
+      obtain ⟨a', ha', hh⟩ := hcov i hi
+      exact ⟨addFact a', (hmem _).2 ⟨a', ha', rfl⟩, hh⟩
+  · intro hcomp
+    have hs := hiff.1 hcomp
+    cases he : emit (factsRun [] h) with
+    | none => rw [he] at hs; cases hs
+    | some bs =>
+      rw [complete_data hi he, emit_consistent hall he]
+
+/-- two histories that deliver the same fragments of one payload (any permutation, any duplication)
+    agree on completeness and, when complete, on the data (which is the payload). -/
+theorem order_duplication_invariant (ip : Nat) (P : Bytes) (hP : P.length ≤ 65535)
+    (h1 h2 : List Add) (hc : ∀ a ∈ h1, Consistent P (addFact a)) (hm : ∀ a, a ∈ h1 ↔ a ∈ h2) :
+    (bufRun (Buf.new ip) h1).isComplete = (bufRun (Buf.new ip) h2).isComplete ∧
+    ((bufRun (Buf.new ip) h1).isComplete = true →
+      (bufRun (Buf.new ip) h1).data = P.map some ∧ (bufRun (Buf.new ip) h2).data = P.map some) := by
+  have hc2 : ∀ a ∈ h2, Consistent P (addFact a) := fun a ha => hc a ((hm a).2 ha)
+  have r1 := reassembles_original ip P hP h1 hc
+  have r2 := reassembles_original ip P hP h2 hc2
+  have hiff : (bufRun (Buf.new ip) h1).isComplete = true ↔ (bufRun (Buf.new ip) h2).isComplete = true := by
+    rw [r1.1, r2.1]
+    constructor
+    · rintro ⟨⟨a, ha, hl⟩, hcov⟩
+      refine ⟨⟨a, (hm a).1 ha, hl⟩, fun i hi => ?_⟩
+      obtain ⟨a', ha', hh⟩ := hcov i hi
+      exact ⟨a', (hm a').1 ha', hh⟩
+    · rintro ⟨⟨a, ha, hl⟩, hcov⟩
+      refine ⟨⟨a, (hm a).2 ha, hl⟩, fun i hi => ?_⟩
+      obtain ⟨a', ha', hh⟩ := hcov i hi
+      exact ⟨a', (hm a').2 ha', hh⟩
+  constructor
+  · cases h1c : (bufRun (Buf.new ip) h1).isComplete <;> cases h2c : (bufRun (Buf.new ip) h2).isComplete <;>
+      simp [h1c, h2c] at hiff ⊢
+  · intro hcomp
+    exact ⟨r1.2 hcomp, r2.2 (hiff.1 hcomp)⟩
 
 /-! ### rejection of inconsistent fragments -/
 
@@ -294,5 +423,301 @@ theorem pool_refines_from (ops : List Defrag.Op) : ∀ (s : Session) (sp : Spec.
 theorem pool_refines (ops : List Defrag.Op) :
     AllMatch ops (Session.new.run ops).2 (Spec.Reasm.run [] (ops.map specOp)).2 :=
   (pool_refines_from ops Session.new [] trivial).1
+
+/-! ### what comes out, when, and from which bytes -/
+
+/-- **payload exactly at completion**: from any reachable pool state (`Rel`), a delivery for stream
+    `k` returns `Ok(Some(p))` iff the packet is a fragment, it is consistent with the facts of
+    stream `k`, and with it the facts of stream `k` (and of no other stream) are complete for the
+    first time; `p` then carries the protocol of the key and exactly the abstract payload.
+    In every other case nothing is returned (`Ok(None)` or `Err`). -/
+theorem payload_exactly_at_completion {s : Session} {sp : Spec.Reasm.Pool Key}
+    (hr : Rel s.pool.active sp) (k : Key) (fo : Nat) (mf : Bool) (pl : Bytes) (ts : Nat)
+    (p : Payload) :
+    (s.step (.deliver (.frag k fo mf pl) ts)).2 = .ok p ↔
+      (mf = true ∨ fo ≠ 0) ∧ check ((find k sp).getD []) (factOf fo mf pl) = none ∧
+      ∃ bs, emit (factOf fo mf pl :: (find k sp).getD []) = some bs ∧
+        p = { ipNumber := k.payloadIpNumber, isIpv4 := k.ver = 4, payload := bs.map some } := by
+  have hm := (step_refines_frag hr k fo mf pl ts).2
+  by_cases hfrag : mf = true ∨ fo ≠ 0
+  · have hspec : ¬ ((factOf fo mf pl).last = true ∧ (factOf fo mf pl).fo = 0) := by
+      simp only [factOf]; cases mf <;> simp at hfrag ⊢ <;> omega
+    simp only [deliver, hspec, if_false] at hm
+    cases hc : check ((find k sp).getD []) (factOf fo mf pl) with
+    | some r =>
+      simp only [hc, OutMatches] at hm
+      rw [hm]; simp
+    | none =>
+      cases he : emit (factOf fo mf pl :: (find k sp).getD []) with
+      | none =>
+        simp only [hc, he, OutMatches] at hm
+        rw [hm]; simp
+      | some bs =>
+        simp only [hc, he, OutMatches] at hm
+        rw [hm]
+        simp only [hfrag, true_and, Option.some.injEq, exists_eq_left', Out.ok.injEq]
+        exact eq_comm
+  · have hspec : (factOf fo mf pl).last = true ∧ (factOf fo mf pl).fo = 0 := by
+      simp only [factOf]; cases mf <;> simp at hfrag ⊢ <;> omega
+    simp only [deliver, hspec, and_self, if_true, OutMatches] at hm
+    rw [hm]; simp [hfrag]
+
+/-- a returned payload whose stream consists of pieces of `P` is `P` (pool level). -/
+theorem pool_returns_original {s : Session} {sp : Spec.Reasm.Pool Key}
+    (hr : Rel s.pool.active sp) (k : Key) (fo : Nat) (mf : Bool) (pl : Bytes) (ts : Nat)
+    (P : Bytes) (hall : ∀ g ∈ (find k sp).getD [], Consistent P g)
+    (hf : Consistent P (factOf fo mf pl)) (p : Payload)
+    (hok : (s.step (.deliver (.frag k fo mf pl) ts)).2 = .ok p) :
+    p.payload = P.map some ∧ p.ipNumber = k.payloadIpNumber := by
+  obtain ⟨_, _, bs, he, rfl⟩ := (payload_exactly_at_completion hr k fo mf pl ts p).1 hok
+  have hall' : ∀ g ∈ factOf fo mf pl :: (find k sp).getD [], Consistent P g := by
+    intro g hg
+    rcases List.mem_cons.1 hg with rfl | hg
+    · exact hf
+    · exact hall g hg
+  rw [emit_consistent hall' he]
+  exact ⟨rfl, rfl⟩
+
+theorem outMatches_ok {op : Defrag.Op} {p : Payload} {so : Spec.Reasm.Out}
+    (h : OutMatches op (.ok p) so) : ∃ bs : Bytes, p.payload = bs.map some := by
+  unfold OutMatches at h
+  split at h
+  · obtain ⟨n, hn⟩ := h; cases hn
+  · cases h; exact ⟨_, rfl⟩
+  · cases h
+  · cases h
+  · cases h
+  · cases h
+
+theorem allMatch_ok : ∀ {ops : List Defrag.Op} {os : List Defrag.Out} {sos : List Spec.Reasm.Out},
+    AllMatch ops os sos → ∀ p, Out.ok p ∈ os → ∃ bs : Bytes, p.payload = bs.map some
+  | [], [], [], _, p, hm => by cases hm
+  | op :: ops, o :: os, so :: sos, h, p, hm => by
+    rcases List.mem_cons.1 hm with hm | hm
+    · rw [← hm] at h; exact outMatches_ok h.1
+    · exact allMatch_ok h.2 p hm
+  | [], [], _ :: _, h, _, _ => by cases h
+  | [], _ :: _, _, h, _, _ => by cases h
+  | _ :: _, [], _, h, _, _ => by cases h
+  | _ :: _, _ :: _, [], h, _, _ => by cases h
+
+/-- **no_stale_bytes**: in every history from any reachable pool state — whatever the recycled
+    vectors hold (`s.pool.finishedDataBufs` is arbitrary) and whichever buffers are returned in
+    between — every cell of every returned payload is `some`: it was written by `copy_from_slice`
+    after the vector was handed to the stream, never merely exposed by `set_len`.
+    (By `payload_exactly_at_completion` and `emit_bytes_delivered` the byte is the one an accepted
+    fragment of the same stream key delivered for that position.) -/
+theorem no_stale_bytes (ops : List Defrag.Op) (s : Session) (sp : Spec.Reasm.Pool Key)
+    (hr : Rel s.pool.active sp) (p : Payload) (hp : Out.ok p ∈ (s.run ops).2) :
+    ∀ c ∈ p.payload, c ≠ none := by
+  obtain ⟨bs, hbs⟩ := allMatch_ok (pool_refines_from ops s sp hr).1 p hp
+  intro c hc
+  rw [hbs] at hc
+  obtain ⟨v, _, rfl⟩ := List.mem_map.1 hc
+  simp
+
+/-- every byte of a returned payload was delivered, at its position, by an accepted fragment of the
+    stream (or by the completing fragment itself). -/
+theorem returned_bytes_delivered {s : Session} {sp : Spec.Reasm.Pool Key}
+    (hr : Rel s.pool.active sp) (k : Key) (fo : Nat) (mf : Bool) (pl : Bytes) (ts : Nat)
+    (p : Payload) (hok : (s.step (.deliver (.frag k fo mf pl) ts)).2 = .ok p) (i : Nat)
+    (hi : i < p.payload.length) :
+    ∃ f ∈ factOf fo mf pl :: (find k sp).getD [], f.off ≤ i ∧ i < f.stop ∧
+      p.payload[i]? = (f.bytes[i - f.off]?).map some := by
+  obtain ⟨_, _, bs, he, rfl⟩ := (payload_exactly_at_completion hr k fo mf pl ts p).1 hok
+  simp only [List.length_map] at hi
+  obtain ⟨f, hf, h1, h2, h3⟩ := emit_bytes_delivered he i hi
+  exact ⟨f, hf, h1, h2, by simp only [List.getElem?_map, h3]⟩
+
+/-! ### exactly once: a completed stream is forgotten -/
+
+/-- no key occurs twice in the map (the HashMap property; an invariant of the model's list) -/
+def UniqueKeys : List (Key × Buf × Nat) → Prop
+  | [] => True
+  | (k, _) :: m => lookup k m = none ∧ UniqueKeys m
+
+theorem lookup_replace_none (k : Key) (v : Buf × Nat) (k' : Key) :
+    ∀ m : List (Key × Buf × Nat), lookup k' (replace k v m) = none ↔ lookup k' m = none
+  | [] => by simp [replace]
+  | (k1, v1) :: m => by
+    simp only [replace]
+    by_cases h1 : k1 = k
+    · simp only [h1, if_true, lookup]
+      by_cases h2 : k = k' <;> simp [h2]
+    · simp only [h1, if_false, lookup]
+      by_cases h2 : k1 = k'
+      · simp [h2]
+      · simp only [h2, if_false]; exact lookup_replace_none k v k' m
+
+theorem lookup_filter_none (f : Key × Buf × Nat → Bool) (k : Key) :
+    ∀ m : List (Key × Buf × Nat), lookup k m = none → lookup k (m.filter f) = none
+  | [], _ => rfl
+  | (k1, v1) :: m, h => by
+    simp only [lookup] at h
+    by_cases h1 : k1 = k
+    · simp [h1] at h
+    · simp only [h1, if_false] at h
+      simp only [List.filter_cons]
+      split
+      · simp only [lookup, h1, if_false]; exact lookup_filter_none f k m h
+      · exact lookup_filter_none f k m h
+
+theorem unique_erase (k : Key) : ∀ m : List (Key × Buf × Nat), UniqueKeys m → UniqueKeys (erase k m)
+  | [], _ => trivial
+  | (k1, v1) :: m, h => by
+    simp only [erase]
+    by_cases h1 : k1 = k
+    · simp only [h1, if_true]; exact h.2
+    · simp only [h1, if_false]
+      exact ⟨by rw [lookup_erase_ne k k1 h1 m]; exact h.1, unique_erase k m h.2⟩
+
+theorem unique_replace (k : Key) (v : Buf × Nat) :
+    ∀ m : List (Key × Buf × Nat), UniqueKeys m → UniqueKeys (replace k v m)
+  | [], _ => trivial
+  | (k1, v1) :: m, h => by
+    simp only [replace]
+    by_cases h1 : k1 = k
+    · simp only [h1, if_true]; exact ⟨by rw [← h1]; exact h.1, h.2⟩
+    · simp only [h1, if_false]
+      exact ⟨(lookup_replace_none k v k1 m).2 h.1, unique_replace k v m h.2⟩
+
+theorem unique_append (k : Key) (v : Buf × Nat) :
+    ∀ m : List (Key × Buf × Nat), UniqueKeys m → lookup k m = none → UniqueKeys (m ++ [(k, v)])
+  | [], _, _ => ⟨rfl, trivial⟩
+  | (k1, v1) :: m, h, hl => by
+    simp only [lookup] at hl
+    by_cases h1 : k1 = k
+    · simp [h1] at hl
+    · simp only [h1, if_false] at hl
+      simp only [List.cons_append]
+      exact ⟨by rw [lookup_append_ne k k1 v h1 m]; exact h.1, unique_append k v m h.2 hl⟩
+
+theorem unique_filter (f : Key × Buf × Nat → Bool) :
+    ∀ m : List (Key × Buf × Nat), UniqueKeys m → UniqueKeys (m.filter f)
+  | [], _ => trivial
+  | (k1, v1) :: m, h => by
+    simp only [List.filter_cons]
+    split
+    · exact ⟨lookup_filter_none f k1 m h.1, unique_filter f m h.2⟩
+    · exact unique_filter f m h.2
+
+theorem lookup_erase_self (k : Key) :
+    ∀ m : List (Key × Buf × Nat), UniqueKeys m → lookup k (erase k m) = none
+  | [], _ => rfl
+  | (k1, v1) :: m, h => by
+    simp only [erase]
+    by_cases h1 : k1 = k
+    · simp only [h1, if_true]; rw [← h1]; exact h.1
+    · simp only [h1, if_false, lookup]; exact lookup_erase_self k m h.2
+
+/-- key uniqueness is kept by `process_sliced_packet` -/
+theorem unique_process (p : Pool) (pkt : Packet) (ts : Nat) (h : UniqueKeys p.active) :
+    UniqueKeys (p.process pkt ts).1.active := by
+  cases pkt with
+  | nonIp => exact h
+  | plain k pl => exact h
+  | frag k fo mf pl =>
+    by_cases hf : mf = true ∨ fo ≠ 0
+    · cases hl : lookup k p.active with
+      | none =>
+        cases ha : (Buf.new k.payloadIpNumber).add fo mf pl with
+        | ok b' =>
+          rw [process_vacant_ok p k fo mf pl ts hf hl ha]
+          exact unique_append k _ _ h hl
+        | error e' => rw [process_vacant_err p k fo mf pl ts hf hl ha]; exact h
+      | some v =>
+        obtain ⟨b, t⟩ := v
+        cases ha : b.add fo mf pl with
+        | error e' => rw [process_occupied_err p k fo mf pl ts hf hl ha]; exact h
+        | ok b' =>
+          cases hc : b'.isComplete with
+          | true =>
+            rw [process_occupied_complete p k fo mf pl ts hf hl ha hc]
+            exact unique_erase k _ h
+          | false =>
+            rw [process_occupied_more p k fo mf pl ts hf hl ha hc]
+            exact unique_replace k _ _ h
+    · rw [process_notfrag p k fo mf pl ts hf]; exact h
+
+/-- key uniqueness holds after every history on a new pool -/
+theorem unique_keys_invariant (ops : List Defrag.Op) : ∀ (s : Session), UniqueKeys s.pool.active →
+    UniqueKeys (s.run ops).1.pool.active := by
+  induction ops with
+  | nil => intro s h; exact h
+  | cons op rest ih =>
+    intro s h
+    simp only [Session.run]
+    apply ih
+    cases op with
+    | deliver pkt ts =>
+      have := unique_process s.pool pkt ts h
+      simp only [Session.step]
+      split <;> rename_i heq <;> rw [heq] at this <;> exact this
+    | ret =>
+      simp only [Session.step]
+      split
+      · exact h
+      · exact h
+    | retain m => exact unique_filter _ _ h
+
+/-- **exactly once**: the delivery that returns a payload removes the stream; afterwards stream `k`
+    is not under reconstruction any more (a further fragment with that key opens a new, empty
+    stream on a cleared buffer), so the datagram cannot be returned a second time. -/
+theorem stream_forgotten (p : Pool) (k : Key) (fo : Nat) (mf : Bool) (pl : Bytes) (ts : Nat)
+    (hu : UniqueKeys p.active) (r : Payload)
+    (h : (p.process (.frag k fo mf pl) ts).2 = .ok (some r)) :
+    lookup k (p.process (.frag k fo mf pl) ts).1.active = none := by
+  by_cases hf : mf = true ∨ fo ≠ 0
+  · cases hl : lookup k p.active with
+    | none =>
+      cases ha : (Buf.new k.payloadIpNumber).add fo mf pl with
+      | ok b' => rw [process_vacant_ok p k fo mf pl ts hf hl ha] at h; cases h
+      | error e' => rw [process_vacant_err p k fo mf pl ts hf hl ha] at h; cases h
+    | some v =>
+      obtain ⟨b, t⟩ := v
+      cases ha : b.add fo mf pl with
+      | error e' => rw [process_occupied_err p k fo mf pl ts hf hl ha] at h; cases h
+      | ok b' =>
+        cases hc : b'.isComplete with
+        | true =>
+          rw [process_occupied_complete p k fo mf pl ts hf hl ha hc]
+          exact lookup_erase_self k _ hu
+        | false => rw [process_occupied_more p k fo mf pl ts hf hl ha hc] at h; cases h
+  · rw [process_notfrag p k fo mf pl ts hf] at h; cases h
+
+/-- **evicted streams leave `active`**: after `retain(f)` exactly the streams whose time stamp
+    satisfies `f` are still under reconstruction, with unchanged buffers, in unchanged order. -/
+theorem retain_evicts (p : Pool) (f : Nat → Bool) :
+    (p.retain f).active = p.active.filter (fun e => f e.2.2) ∧
+    ∀ e ∈ (p.retain f).active, f e.2.2 = true ∧ e ∈ p.active := by
+  refine ⟨rfl, ?_⟩
+  intro e he
+  have := List.mem_filter.1 (show e ∈ p.active.filter (fun e => f e.2.2) from he)
+  exact ⟨this.2, this.1⟩
+
+/-! ### non-vacuity -/
+
+/-- a concrete out-of-order history completes (the definitions compute) -/
+example : (bufRun (Buf.new 17) [(1, false, [9, 10]), (0, true, [1, 2, 3, 4, 5, 6, 7, 8])]).isComplete = true := by
+  decide
+example : (bufRun (Buf.new 17) [(1, false, [9, 10]), (0, true, [1, 2, 3, 4, 5, 6, 7, 8])]).data =
+    [1, 2, 3, 4, 5, 6, 7, 8, 9, 10].map some := by decide
+/-- the hypothesis `Consistent` of `reassembles_original` is satisfiable by non-trivial fragments -/
+example : ∀ a ∈ [((1 : Nat), false, ([9, 10] : Bytes)), (0, true, [1, 2, 3, 4, 5, 6, 7, 8]), (0, true, [1, 2, 3, 4, 5, 6, 7, 8])],
+    Consistent [1, 2, 3, 4, 5, 6, 7, 8, 9, 10] (addFact a) := by decide
+/-- the F10 history (fixed by a44b17c): the short last fragment is rejected, nothing is complete -/
+example : (Buf.addCheck (bufRun (Buf.new 17) [(0, true, List.replicate 16 1), (2, true, List.replicate 16 2)]) 1 false
+    (List.replicate 8 3)) = some (.conflictingEnd 32 16) := by decide
+/-- stale cells are expressible: a buffer with a hole holds `none` there (and is not complete) -/
+example : (bufRun (Buf.new 17) [(1, false, [9])]).data =
+    [none, none, none, none, none, none, none, none, some 9] := by decide
+/-- the hypothesis `Rel` of `pool_refines_from` / `no_stale_bytes` holds for a new pool whose
+    recycled vectors hold arbitrary stale content, and (second part of `pool_refines_from`) for every
+    state reached from it -/
+example (junk : List (List Cell)) (secs : List (List Range)) :
+    Rel ({ pool := { active := [], finishedDataBufs := junk, finishedSectionBufs := secs },
+           outstanding := [] } : Session).pool.active [] := trivial
+/-- `UniqueKeys` holds for a new pool -/
+example : UniqueKeys Session.new.pool.active := trivial
 
 end EpModel.Props.C11
